@@ -3,7 +3,9 @@
 package driver
 
 import (
+	"bytes"
 	"fmt"
+	"io"
 	"time"
 
 	"github.com/google/pprof/internal/plugin"
@@ -75,4 +77,32 @@ func VerifC07Top(p *profile.Profile, sampleIndex string) (int64, []report.TextIt
 	}
 	items, _ := report.TextItems(rpt)
 	return rpt.Total(), items, nil
+}
+
+type verifC07Writer struct{ files map[string]*verifC07File }
+type verifC07File struct{ bytes.Buffer }
+
+func (f *verifC07File) Close() error { return nil }
+func (w *verifC07Writer) Open(name string) (io.WriteCloser, error) {
+	f := &verifC07File{}
+	w.files[name] = f
+	return f, nil
+}
+
+// VerifC07SaveProto is `pprof ... -proto -output=<file>`: generateReport with the "proto" command
+// (generateRawReport -> report.New -> report.Generate/printProto of the REPORT's profile ->
+// Writer.Open(output)); it returns the bytes written to the output file.
+func VerifC07SaveProto(p *profile.Profile) ([]byte, error) {
+	cfg := defaultConfig()
+	cfg.Output = "c07-saved.pb.gz"
+	w := &verifC07Writer{files: map[string]*verifC07File{}}
+	o := &plugin.Options{UI: &verifC07UI{}, Writer: w}
+	if err := generateReport(p, []string{"proto"}, cfg, o); err != nil {
+		return nil, err
+	}
+	f, ok := w.files[cfg.Output]
+	if !ok {
+		return nil, fmt.Errorf("verif: -proto wrote no output file")
+	}
+	return f.Bytes(), nil
 }
